@@ -101,3 +101,72 @@ func (e *Engine) assignKeys(con *Contract) []string {
 	}
 	return out
 }
+
+var freshSliceFuncs = map[string]bool{
+	"strings.Split": true, "strings.SplitN": true, "strings.SplitAfter": true, "strings.SplitAfterN": true,
+	"strings.Fields": true, "strings.FieldsFunc": true, "bytes.Split": true, "bytes.Fields": true,
+}
+
+// freshOrigin: the slice value certainly refers to an array allocated during this activation
+// (make, a composite literal, a standard-library function documented to return a new slice, or
+// append applied to such a slice), so that writing its elements cannot touch pre-existing memory.
+func (e *Engine) freshOrigin(v ssa.Value) bool {
+	seen := map[ssa.Value]bool{}
+	var ok func(v ssa.Value) bool
+	ok = func(v ssa.Value) bool {
+		if seen[v] {
+			return true
+		}
+		seen[v] = true
+		switch x := v.(type) {
+		case *ssa.MakeSlice:
+			return true
+		case *ssa.Slice:
+			if a, isA := x.X.(*ssa.Alloc); isA {
+				return a.Heap
+			}
+			return ok(x.X)
+		case *ssa.Call:
+			if b, isB := x.Call.Value.(*ssa.Builtin); isB {
+				if b.Name() == "append" {
+					return ok(x.Call.Args[0])
+				}
+				return false
+			}
+			if c := x.Call.StaticCallee(); c != nil {
+				return freshSliceFuncs[c.String()]
+			}
+			return false
+		case *ssa.UnOp:
+			a, isA := x.X.(*ssa.Alloc)
+			if !isA || a.Heap || x.Op.String() != "*" {
+				return false
+			}
+			refs := a.Referrers()
+			if refs == nil {
+				return false
+			}
+			n := 0
+			for _, r := range *refs {
+				if s, isS := r.(*ssa.Store); isS && s.Addr == a {
+					n++
+					if !ok(s.Val) {
+						return false
+					}
+				}
+			}
+			return n > 0
+		case *ssa.Phi:
+			for _, ed := range x.Edges {
+				if !ok(ed) {
+					return false
+				}
+			}
+			return true
+		case *ssa.ChangeType:
+			return ok(x.X)
+		}
+		return false
+	}
+	return ok(v)
+}
